@@ -295,10 +295,23 @@ func olderGuard(l Lit) (is bool, wrong string) {
 	if sideKind(o.A) != "existing" || sideKind(o.B) != "incoming" {
 		return false, ""
 	}
+	if clockOf(o.A) != "getTime" {
+		// the value clock of an element is getTime(); its position identity (getOrderTime) and its
+		// creation time never change and must not decide which value wins
+		return false, fmt.Sprintf("the existing element is compared by %q, not by its value clock getTime()", clockOf(o.A))
+	}
 	if o.Rel == "older" {
 		return true, ""
 	}
 	return false, fmt.Sprintf("existing(%s) is %s than incoming(%s)", exprName(o.A), o.Rel, exprName(o.B))
+}
+
+// clockOf names the accessor through which a compared timestamp was obtained.
+func clockOf(v ssa.Value) string {
+	if c, ok := v.(*ssa.Call); ok {
+		return calleeName(c)
+	}
+	return ""
 }
 
 type guardSite struct {
@@ -509,7 +522,11 @@ func ruleR02_4(w *World, r *Report) {
 					if sideKind(o.A) == "incoming" {
 						o = o.flip()
 					}
-					rels = append(rels, o.Rel)
+					if clockOf(o.A) != "getOrderTime" {
+						rels = append(rels, "compared-by-"+clockOf(o.A)+"-not-getOrderTime")
+					} else {
+						rels = append(rels, o.Rel)
+					}
 				}
 			}
 			all = all && found
